@@ -554,9 +554,39 @@ def is_err_exit(n):
     return False
 
 
+def tail_nodes(body):
+    """ids of the nodes in tail position of a function body (a `return x` there is the same as the final expression `x`)."""
+    out = set()
+    stack = [body]
+    while stack:
+        n = stack.pop()
+        if not isinstance(n, dict):
+            continue
+        out.add(id(n))
+        k = n.get("k")
+        if k == "block":
+            if "tail" in n:
+                stack.append(n["tail"])
+            elif n.get("stmts"):
+                stack.append(n["stmts"][-1])
+        elif k in ("semi", "paren", "unsafe"):
+            if "e" in n:
+                stack.append(n["e"])
+        elif k == "if":
+            stack.append(n["then"])
+            if "else" in n:
+                stack.append(n["else"])
+        elif k == "match":
+            for a in n["arms"]:
+                stack.append(a["body"])
+    return out
+
+
 def success_returns(body, into_closures=False):
-    """explicit `return <non-error>` nodes of a function body (not those of nested closures): early successful exits."""
+    """explicit `return <non-error>` nodes of a function body (not those of nested closures) that are not in tail position:
+    early successful exits."""
     out = []
+    tails = tail_nodes(body)
     stack = [body]
     while stack:
         n = stack.pop()
@@ -564,7 +594,7 @@ def success_returns(body, into_closures=False):
             continue
         if n.get("k") == "closure" and not into_closures:
             continue
-        if n.get("k") == "ret" and not is_err_exit(n):
+        if n.get("k") == "ret" and not is_err_exit(n) and id(n) not in tails:
             out.append(n)
         stack.extend(children(n))
     return out
